@@ -107,11 +107,16 @@ inline Exec run_history(const History& h, const Options& o, bool want_intro, std
                 x.canon = canon_state(*root);
                 x.ledger_error = E.ledger_error; x.ledger_msg = E.ledger_msg;
                 x.pending = pending_count(*root); x.started = g_started; x.rawseq = zoo::vf_rawseq(*root); x.rootq = zoo::vf_rootq(*root);
-                if (want_intro) { x.intro = zoo::vf_introspect(*root); x.intro += " AND:" + zoo::vf_flags_and(*root); }
+                if (want_intro || o.introspect) {
+                    x.intro = zoo::vf_introspect(*root); x.intro += " AND:" + zoo::vf_flags_and(*root);
+                    // what the introspection calls answer is part of the state identity: a path-dependent
+                    // answer splits the state instead of hiding behind the first visit
+                    if (o.introspect) x.canon += ";I:" + std::to_string(std::hash<std::string>()(x.intro) % 1000003);
+                }
                 if (all) all->push_back(x);
             }
         }
-        if (h.empty()) { x.canon = canon_state(*root); x.started = false; if (want_intro) x.intro = zoo::vf_introspect(*root); }
+        if (h.empty()) { x.canon = canon_state(*root); x.started = false; if (want_intro || o.introspect) { x.intro = zoo::vf_introspect(*root); x.intro += " AND:" + zoo::vf_flags_and(*root); } }
         g_root = nullptr;
     }
     // all copies of every event must be gone once the machine is destroyed
@@ -205,7 +210,7 @@ inline int explore(const Options& o) {
                 ntrans++;
                 if (isnew) {
                     std::string intro;
-                    if (o.introspect) { Exec y = run_history(h, o, true); intro = y.intro; }
+                    if (o.introspect) { intro = x.intro; }
                     *out << "S\t" << dst << "\t" << x.canon << "\t" << intro << "\n";
                 }
                 std::string rawtape = tape_raw(x.choices);
